@@ -88,6 +88,23 @@ def nontrivial(b):
 
 def run(ctx, replay):
     run_queue(ctx, replay, "C01", lambda v: v not in REPORT_PREDS, DIMS_C01, {"real": True})
+    if ctx.tier == "thorough" and not replay:
+        # the end-to-end composition (endpoint -> pipeline -> queue -> forwarder -> next hop), MsgPath.tla
+        import subprocess
+        import sys
+        p = subprocess.run([sys.executable, os.path.join(vlib.VERIF, "bin", "check"), "PATH", "--tier", "thorough"],
+                           stdout=subprocess.PIPE, stderr=subprocess.STDOUT, text=True, env=dict(os.environ))
+        lines = p.stdout.splitlines()
+        if p.returncode == 2:
+            raise vlib.Infra("end-to-end composition run failed: " + " ".join(l for l in lines if "INFRA" in l)[:300])
+        n = 0
+        for l in lines:
+            if l.startswith("VIOLATION property=PATH"):
+                n += 1
+                ctx.violations.append(("end-to-end path: " + l.split("#", 1)[-1].strip(),
+                                       l.split("replay=", 1)[1].split()[0]))
+        ctx.cov["end_to_end_path_run"] = {"exit": p.returncode, "violations": n,
+                                          "summary": [l for l in lines if "behaviours" in l or "done:" in l]}
 
 
 def run_queue(ctx, replay, pid, mine, dims, opts):
